@@ -37,6 +37,9 @@ const (
 	replyGarbledError // an error message whose payload is well-formed CBOR of the wrong shape, then the stream ends
 	replyGarbledDone  // the same for a work-done message
 	replyHalfDone     // a work-done whose first fields decode and a later one does not (a corrupted byte late in the message)
+	replyGarbledDoneOpen // a garbled work-done, and the plugin keeps its output open afterwards (as a real one does
+	// while it waits for client-done): only the message itself can fail the waiting call
+	replyHalfDoneOpen
 	replyCount
 )
 
@@ -158,6 +161,10 @@ func VerifC08_BrokenStream() {
 				_ = enc.Encode(RuntimeMessage{MessageTypeWorkDone, run, map[string]any{"step_id": "inc", "output_id": "ok", "output_data": map[string]any{"o": int64(7)}, "debug_logs": int64(5)}})
 				_ = fromSrvW.Close()
 				broken = true
+			case replyGarbledDoneOpen:
+				_ = enc.Encode(RuntimeMessage{MessageTypeWorkDone, run, "not a work done message"})
+			case replyHalfDoneOpen:
+				_ = enc.Encode(RuntimeMessage{MessageTypeWorkDone, run, map[string]any{"step_id": "inc", "output_id": int64(5), "output_data": map[string]any{"o": int64(7)}}})
 			case replyServerFatal:
 				_ = enc.Encode(RuntimeMessage{MessageTypeError, run, ErrorMessage{Error: "boom", StepFatal: true, ServerFatal: true}})
 				_ = fromSrvW.Close()
